@@ -166,6 +166,9 @@ func (c *Ctx) queryText(o *Obligation, forModel bool) string {
 	for _, l := range c.declCmds {
 		sb.WriteString(l + "\n")
 	}
+	for _, l := range c.mapofDefs {
+		sb.WriteString(l + "\n")
+	}
 	for _, l := range c.smtLines() {
 		sb.WriteString(l + "\n")
 	}
